@@ -59,6 +59,29 @@ class View:
         self.__dict__.update(kwargs)
 
 
+class Ref:
+    def __init__(self, node):
+        self.node = node
+
+
+@dataclass
+class Tree:
+    """recursive only under a default conversion turning Ref into Tree"""
+    value: int = 0
+    ref: Optional[Ref] = None
+
+
+def _dc(kind):
+    base = settings.serialization.default_conversion
+
+    def default_conversion(tp):
+        if tp is Ref:
+            return (apischema.conversions.Conversion(lambda r: r.node, source=Ref, target=Tree) if kind == "tree"
+                    else apischema.conversions.Conversion(lambda r: 0, source=Ref, target=int))
+        return base(tp)
+    return default_conversion
+
+
 NT = NewType("NT", int)
 
 
@@ -148,6 +171,8 @@ def op(name, *args):
         serialized(owner=P)(extra)
     elif name == "cache_reset":
         apischema.cache.reset()
+    elif name == "cache_set_size":
+        apischema.cache.set_size(args[0])
     else:
         raise ValueError(name)
 
@@ -166,9 +191,10 @@ def canon(x):
     return x
 
 
-TYPES = {"Node": Node, "Rounded": Rounded, "P": P, "Q": Q, "Holder": Holder, "ListP": List[P], "WithNT": WithNT, "Opaque": Opaque, "OptP": Optional[P], "View": View}
+TYPES = {"Node": Node, "Rounded": Rounded, "P": P, "Q": Q, "Holder": Holder, "ListP": List[P], "WithNT": WithNT, "Opaque": Opaque, "OptP": Optional[P], "View": View, "Tree": Tree}
 VALUES = {"N2": lambda: Node(1, Node(2)), "R1": lambda: Rounded(1.5), "P0": lambda: P(), "P1": lambda: P(5, "s", 4), "Q1": lambda: Q(P(1), [P(2, None)]), "H1": lambda: Holder(Opaque(3), 1),
-          "W1": lambda: WithNT(NT(2)), "V1": lambda: View(x=1, y="s", some_name=2)}
+          "W1": lambda: WithNT(NT(2)), "V1": lambda: View(x=1, y="s", some_name=2),
+          "T1": lambda: Tree(1, None), "T2": lambda: Tree(1, Ref(Tree(2, None)))}
 
 
 def obs(name, *args):
@@ -177,6 +203,8 @@ def obs(name, *args):
             return ["ok", canon(deserialize(TYPES[args[0]], args[1]))]
         if name == "serialize":
             return ["ok", canon(serialize(TYPES[args[0]], VALUES[args[1]]()))]
+        if name == "serialize_dc":      # a per-call default conversion: "int" flattens Ref, "tree" makes Tree recursive
+            return ["ok", canon(serialize(TYPES[args[0]], VALUES[args[1]](), default_conversion=_dc(args[2])))]
         if name == "dschema":
             return ["ok", canon(deserialization_schema(TYPES[args[0]]))]
         if name == "sschema":
